@@ -169,6 +169,72 @@ INT_TEXTS = ["0", "-0", "+0", "007", "+5", "-5", " 1_0 ", "1_000", "1__0", "_1",
              "18446744073709551615", "18446744073709551616", "00000000000000000000000000009", "1" * 30]
 
 
+DEC_ALPHABET = "0123456789+-_ \t\n\r\x0b\x0c"
+_BLANKS = " \t\n\r\x0b\x0c"
+
+
+def dec_text_value(t: str) -> Optional[int]:
+    """own reader of integer text over DEC_ALPHABET: blanks? sign? digits (_ digits)* blanks?  -> value, else None
+    (a hand-written scanner: no int(), no regex)"""
+    i, n = 0, len(t)
+    while i < n and t[i] in _BLANKS:
+        i += 1
+    j = n
+    while j > i and t[j - 1] in _BLANKS:
+        j -= 1
+    neg = False
+    if i < j and t[i] in "+-":
+        neg = t[i] == "-"
+        i += 1
+    if i >= j:
+        return None
+    val, prev_digit = 0, False
+    while i < j:
+        ch = t[i]
+        if ch in "0123456789":
+            val = val * 10 + "0123456789".index(ch)
+            prev_digit = True
+        elif ch == "_" and prev_digit and i + 1 < j and t[i + 1] in "0123456789":
+            prev_digit = False
+        else:
+            return None
+        i += 1
+    return -val if neg else val
+
+
+# Round 4.  GRAMMAR EDGES of integer text: every short arrangement of the tokens a lenient reader strips, skips or
+# re-reads (signs, blanks, underscore, the hex prefix) in front of, inside and behind a digit string.  The class of
+# change this stands for: "the text is taken apart by hand (a sign / prefix / blank split off) and the REST is handed
+# to a reader that accepts its own sign / blanks / prefix" — so text with a doubled or detached token is parsed
+# instead of rejected.
+GRAMMAR_TOKENS = ["-", "+", " ", "_", "0x", "\t", "0"]
+
+
+def _grammar_texts(rng: random.Random, quick: bool) -> List[str]:
+    import itertools
+    pre = [""] + ["".join(p) for k in (1, 2, 3) for p in itertools.product(GRAMMAR_TOKENS[:5], repeat=k)]
+    out = []
+    short = [p for p in pre if sum(1 for _ in p.replace("0x", "x")) <= 2]          # all arrangements of <= 2 tokens: always
+    digs = lambda: rng.choice(["5", "10", "42", "7f", "123", dec_str(rng.randint(0, 10**6)), "9223372036854775807",
+                                "9223372036854775808", "18446744073709551615"])
+    for p in short:
+        out += [p + rng.choice(["5", "10", "42", "123"]), p + digs()]
+    long_ = [p for p in pre if p not in short]
+    for p in (rng.sample(long_, 40) if quick else long_):
+        out.append(p + digs())
+    for _ in range(40 if quick else 600):                                       # tokens inside / behind the digits
+        d = digs()
+        k = rng.randint(1, len(d))
+        tok = rng.choice(GRAMMAR_TOKENS) + rng.choice(["", ""] + GRAMMAR_TOKENS)
+        out.append(rng.choice(["", "-", "+", " "]) + d[:k] + tok + d[k:])
+    seen, uniq = set(), []
+    for t in out:
+        if t not in seen:
+            seen.add(t)
+            uniq.append(t)
+    return uniq
+
+
 class C10(Prop):
     pid = "C10"
     manifest = dict(
@@ -250,6 +316,7 @@ class C10(Prop):
                 k = rng.randint(0, len(t))
                 t = t[:k] + rng.choice("abz.e,;/ ") + t[k:]
             texts.append(t)
+        texts += _grammar_texts(rng, quick)          # round 4: sign / blank / underscore / prefix arrangements
         for t in texts:
             cases.append({"kind": "conv", "f": "int", "src": "s", "v": t, "via": via()})
             cases.append({"kind": "conv", "f": "uint", "src": "s", "v": t, "via": via()})
@@ -455,7 +522,7 @@ class C10(Prop):
             n = abs(n)
             t = dec_str(n)
             texts = [t, "-" + t, "+" + t, " " + t, t + " ", "0" + t, "-0" + t, hex(n), "-" + hex(n), hex(n).upper().replace("0X", "0X"),
-                     t + "u", t + ".0", "0x" + t, "-0x" + t]
+                     t + "u", t + ".0", "0x" + t, "-0x" + t, "--" + t, "-+" + t, "- " + t, "+-" + t, t + "-"]
             if len(t) > 1:
                 texts.append(t[:1] + "_" + t[1:])
             steps = []
@@ -842,6 +909,28 @@ class C10(Prop):
                     return want(f"{tag}{n}", f"{f}({v!r})") if lo <= n <= hi else want_err(f"{f}({v!r}) (out of range)")
                 if v.isascii() and (v.strip() == "" or re.search(r"[^0-9a-fA-FxX_+\-\s]", v)):
                     return want_err(f"{f}({v!r}) (unparsable text)")
+                # round 4: the GRAMMAR of integer text.  Over the decimal alphabet (digits, signs, blanks, underscore) a text
+                # denotes an integer only as  blanks? sign? digits (_ digits)* blanks?  — ONE optional sign, attached to the
+                # digits, nothing between the digits but single underscores.  Anything else over that alphabet (a second sign,
+                # a sign detached from the digits, a blank inside, a stray underscore, no digit) is unparsable: an error.
+                # A text of the grammar may be refused (blanks / underscores / '+' are a leniency of the host language), but if
+                # a value comes out it is the denoted one, in range.
+                if v and all(ch in DEC_ALPHABET for ch in v):
+                    n = dec_text_value(v)
+                    if n is None:
+                        return want_err(f"{f}({v!r}) (not an integer text: sign / blank / underscore arrangement)")
+                    if not lo <= n <= hi:
+                        return want_err(f"{f}({v!r}) (out of range)")
+                    return want(f"{tag}{n}", f"{f}({v!r})") if isval else None
+                # well-formed hexadecimal text  -?0x<hex digits>  (the only hex spelling the statement can speak about; what
+                # follows a stray sign / blank / underscore after the prefix is modelled as coded, not judged here)
+                mh = re.fullmatch(r"(-?)0[xX]([0-9a-fA-F]+)", v)
+                if mh and isval:
+                    n = 0
+                    for ch in mh.group(2).lower():
+                        n = n * 16 + "0123456789abcdef".index(ch)
+                    n = -n if mh.group(1) else n
+                    return want(f"{tag}{n}", f"{f}({v!r})") if lo <= n <= hi else want_err(f"{f}({v!r}) (out of range)")
                 return None
             return None
         if f == "double" and src in ("i", "u"):
